@@ -23,7 +23,8 @@ def input_to_canonical_index(inputs: tp.Iterable[bool]) -> int:
     represents value of `i`th input.
 
     """
-    return int(''.join(str(int(v)) for v in inputs), 2)
+    # an empty input sequence (function without inputs) has index 0
+    return int(''.join(str(int(v)) for v in inputs) or '0', 2)
 
 
 def canonical_index_to_input(index: int, input_size: int) -> tp.Sequence[bool]:
